@@ -1,12 +1,199 @@
 import HcipyVerif.Model.Proto
+import HcipyVerif.Model.FieldProg
 
-/-! Line-protocol front end of the C19 model (stub: not built yet). -/
+/-!
+Line-protocol front end of the C19 model.
+
+```
+C19 reset
+C19 grid <id> <shape | ->            grid.shape of grid <id> ("-": not separated)
+C19 run <statement tokens …>          runs the program under BOTH routes from empty stores
+```
+Programs are token streams; expressions are in postfix form.
+
+```
+statement := "=.<x>" expr ";" | "al.<h>.<x>" ";" | "i.<op>.<x>" expr ";"
+           | "set.at0.<i>.<x>" expr ";" | "set.atl.<i>.<x>" expr ";" | "set.sl.<a>.<b>.<c>.<x>" expr ";"
+           | "setm.<x>" expr(mask) "," expr ";"
+expr tok  := "v<x>" | "L:<shape>:<k>:<re>[:<im>]" | "S:<k>:<re>[:<im>]" | "F:<g>:<shape>:<k>:<re>[:<im>]"
+           | add sub mul div max min gt lt | neg pos abs sq conj re im
+           | "<red>.<axis>" (sum mean max min . all last first)
+           | "at0.<i>" | "atl.<i>" | "sl.<a>.<b>.<c>" | mask | shaped | "rs.<shape>" | ravel | copy | pickle
+```
+Answer: `ok O <obs>* | N <obs>* | DO <obs>* | DN <obs>*` — the per-statement observations of the
+subclass route and of the wrapper route, then the final read-out of every variable under each.
+`obs := <x>=<tag>:<shape>:<k>:<re>[:<im>] | <x>=E:<err>`, tag `f<g>` / `p` / `s`.
+-/
 namespace HcipyVerif.Driver.C19
+open HcipyVerif.Proto HcipyVerif.FieldProg
 
 structure St where
-  dummy : Unit := ()
+  grids : Grids := []
+
+def parseKind? : String → Option Kind
+  | "r" => some .real | "c" => some .cplx | "b" => some .bool | _ => none
+
+def showKind : Kind → String
+  | .real => "r" | .cplx => "c" | .bool => "b"
+
+def mkData (re : List Rat) (im : List Rat) : List Cx :=
+  if im.isEmpty then re.map fun r => ⟨r, 0⟩ else List.zipWith (fun r i => ⟨r, i⟩) re im
+
+/-- `<shape>:<k>:<re>[:<im>]` -/
+def parseArr? : List String → Option Arr
+  | [sh, k, re] => do
+    let sh ← parseNatList? sh; let k ← parseKind? k; let re ← parseRatList? re
+    if k == .cplx then none else
+    if re.length != Prim.prod sh then none else pure ⟨sh, k, mkData re []⟩
+  | [sh, k, re, im] => do
+    let sh ← parseNatList? sh; let k ← parseKind? k; let re ← parseRatList? re; let im ← parseRatList? im
+    if k != .cplx then none else
+    if re.length != Prim.prod sh || im.length != re.length then none else pure ⟨sh, k, mkData re im⟩
+  | _ => none
+
+def parseBin? : String → Option BinOp
+  | "add" => some .add | "sub" => some .sub | "mul" => some .mul | "div" => some .div
+  | "max" => some .max | "min" => some .min | "gt" => some .gt | "lt" => some .lt | _ => none
+
+def parseUn? : String → Option UnOp
+  | "neg" => some .neg | "pos" => some .pos | "abs" => some .abs | "sq" => some .sq
+  | "conj" => some .conj | "re" => some .re | "im" => some .im | _ => none
+
+def parseRed? : String → Option RedOp
+  | "sum" => some .sum | "mean" => some .mean | "max" => some .max | "min" => some .min | _ => none
+
+def parseAxis? : String → Option Axis
+  | "all" => some .all | "last" => some .last | "first" => some .first | _ => none
+
+def parseIx? : List String → Option Ix
+  | ["at0", i] => (parseInt? i).map .at0
+  | ["atl", i] => (parseInt? i).map .atLast
+  | ["sl", a, b, c] => do pure (.slice (← parseNat? a) (← parseNat? b) (← parseNat? c))
+  | _ => none
+
+/-- one postfix token applied to the expression stack (top = head) -/
+def pushTok (stack : List Expr) (tok : String) : Option (List Expr) :=
+  if tok.startsWith "v" then
+    (parseNat? (tok.drop 1).toString).map fun x => .var x :: stack
+  else if tok.startsWith "L:" then
+    (parseArr? ((tok.drop 2).toString.splitOn ":")).map fun a => .lit a :: stack
+  else if tok.startsWith "F:" then
+    match (tok.drop 2).toString.splitOn ":" with
+    | g :: rest => do
+      let g ← parseNat? g; let a ← parseArr? rest
+      pure (.field a g :: stack)
+    | _ => none
+  else if tok.startsWith "S:" then
+    match (tok.drop 2).toString.splitOn ":" with
+    | ["r", re] => (parseRat? re).map fun r => .scal ⟨r, 0⟩ .real :: stack
+    | ["c", re, im] => do
+      let r ← parseRat? re; let i ← parseRat? im
+      pure (.scal ⟨r, i⟩ .cplx :: stack)
+    | _ => none
+  else
+    match parseBin? tok, stack with
+    | some op, r :: l :: rest => some (.bin op l r :: rest)
+    | some _, _ => none
+    | none, _ =>
+    match parseUn? tok, stack with
+    | some u, e :: rest => some (.un u e :: rest)
+    | some _, _ => none
+    | none, _ =>
+    match tok, stack with
+    | "mask", m :: e :: rest => some (.mask e m :: rest)
+    | "shaped", e :: rest => some (.shaped e :: rest)
+    | "ravel", e :: rest => some (.ravel e :: rest)
+    | "copy", e :: rest => some (.copy e :: rest)
+    | "pickle", e :: rest => some (.pickle e :: rest)
+    | _, _ =>
+    match parseIx? (tok.splitOn "."), tok.splitOn ".", stack with
+    | some i, _, e :: rest => some (.idx i e :: rest)
+    | none, [r, ax], e :: rest =>
+      if r == "rs" then (parseNatList? ax).map fun s => .reshape s e :: rest
+      else do
+        let r ← parseRed? r; let ax ← parseAxis? ax
+        pure (.red r ax e :: rest)
+    | _, _, _ => none
+
+def parseExpr? (toks : List String) : Option Expr :=
+  match toks.foldlM pushTok [] with
+  | some [e] => some e
+  | _ => none
+
+def splitAt (sep : String) (toks : List String) : List String × List String :=
+  (toks.takeWhile (· != sep), (toks.dropWhile (· != sep)).drop 1)
+
+def parseStmt? (toks : List String) : Option Stmt :=
+  match toks with
+  | [] => none
+  | hd :: body =>
+    match hd.splitOn "." with
+    | ["=", x] => do pure (.assign (← parseNat? x) (← parseExpr? body))
+    | ["al", h, x] => if body.isEmpty then do pure (.alias (← parseNat? h) (← parseNat? x)) else none
+    | ["i", op, x] => do pure (.iop (← parseNat? x) (← parseBin? op) (← parseExpr? body))
+    | ["setm", x] =>
+      let (m, e) := splitAt "," body
+      do pure (.setMask (← parseNat? x) (← parseExpr? m) (← parseExpr? e))
+    | "set" :: rest =>
+      match rest.reverse with
+      | x :: ixr => do pure (.setIx (← parseNat? x) (← parseIx? ixr.reverse) (← parseExpr? body))
+      | [] => none
+    | _ => none
+
+/-- statements are terminated by ";" -/
+def splitStmts (toks : List String) (fuel : Nat) : Option (List (List String)) :=
+  match fuel with
+  | 0 => if toks.isEmpty then some [] else none
+  | fuel + 1 =>
+    if toks.isEmpty then some [] else
+    if !toks.contains ";" then none else
+    let (s, rest) := splitAt ";" toks
+    (splitStmts rest fuel).map (s :: ·)
+
+def parseProg? (toks : List String) : Option (List Stmt) :=
+  (splitStmts toks toks.length) >>= fun ss => ss.mapM parseStmt?
+
+def showTag : Tag → String
+  | .field g => s!"f{g}" | .plain => "p" | .scalar => "s"
+
+def showErr : Err → String
+  | .value => "value" | .type => "type" | .index => "index" | .attr => "attr" | .unsupported => "unsupported"
+
+def showVal (v : Val) : String :=
+  let a := v.1
+  let base := s!"{showTag v.2}:{showNatList a.shape}:{showKind a.kind}:{showRatList (a.data.map (·.re))}"
+  if a.kind == .cplx then base ++ ":" ++ showRatList (a.data.map (·.im)) else base
+
+def showObs : Obs → String
+  | .error e => s!"E:{showErr e}"
+  | .ok (x, v) => s!"{x}={showVal v}"
+
+def showDump (d : List (Nat × Except Err Val)) : String :=
+  " ".intercalate (d.map fun (x, r) => match r with
+    | .error e => s!"{x}=E:{showErr e}"
+    | .ok v => s!"{x}={showVal v}")
 
 def step (st : St) : List String → St × String
+  | ["reset"] => ({}, "ok")
+  | ["grid", id, sh] =>
+    match parseNat? id with
+    | none => (st, "bad-op")
+    | some id =>
+      if sh == "-" then ({ st with grids := (id, none) :: st.grids.filter (·.1 != id) }, "ok")
+      else match parseNatList? sh with
+        | some s => ({ st with grids := (id, some s) :: st.grids.filter (·.1 != id) }, "ok")
+        | none => (st, "bad-op")
+  | "run" :: toks =>
+    match parseProg? toks with
+    | none => (st, "bad-op")
+    | some prog =>
+      let (tro, fo) := runO st.grids {} prog
+      let (trn, fn) := runN st.grids {} prog
+      let so := " ".intercalate (tro.map showObs)
+      let sn := " ".intercalate (trn.map showObs)
+      let dOld := match fo with | some s => showDump s.dump | none => "-"
+      let dNew := match fn with | some s => showDump s.dump | none => "-"
+      (st, s!"ok O {so} | N {sn} | DO {dOld} | DN {dNew}")
   | _ => (st, "bad-op")
 
 end HcipyVerif.Driver.C19
